@@ -1,9 +1,16 @@
 import JxlModel.Driver.Common
 import JxlModel.Model.Container
+import JxlModel.Model.AuxBox
 /-! Line protocol for C10 (same as `harness/src/bin/c10.rs`):
 `new` → `ok`; `feed <hex>` → `consumed=<n> kind=<k> <event>*` (or `dead` after an error);
 `push <hex>` = `feed (leftover ++ chunk)` keeping the unconsumed tail (one step of `feedChunks`);
-`finish` → `kind=<k> pending=<n>`. -/
+`finish` → `kind=<k> pending=<n>`.
+
+Layer above (same as `harness/src/bin/c10a.rs`, the model never answers `u`):
+`sess <file hex> <l1,l2,..|->` → one word per chunk, `fin:<ok|E:class>`, final word;
+`read <file hex>` → `read:<ok|E:class>` and the final word.
+The `Codec` parameter is instantiated with `storedBrotli` (stored-only Brotli streams, anything
+else is invalid) and `jbrdOk = false` (the campaign writes no valid `jbrd` data). -/
 namespace Jxl.Driver.C10
 open Jxl.Container
 
@@ -83,6 +90,74 @@ def step (st : St) (ws : List String) : St × String :=
   | ["finish"] => (st, s!"kind={showKind st.s.kind} pending={st.pending.length}")
   | _ => (st, "bad-op")
 
-def main : IO Unit := runLoop (⟨init, false, []⟩ : St) step
+/-! ### `AuxBoxList` through `JxlImage` -/
+open Jxl.AuxBox (Codec Answer firstExif firstXml jbrdStatus SErr Sess storedBrotli)
+def codec : Codec := ⟨storedBrotli, fun _ => false⟩
+
+def showAnsBytes : Answer Bytes → String
+  | .data b => s!"D:{hex b}"
+  | .decoding => "dec"
+  | .notFound => "nf"
+
+def stateWord (a : Jxl.AuxBox.St) : String :=
+  let exif := match firstExif a with
+    | none => "inv"
+    | some (.data (off, p)) => s!"D:{off}:{hex p}"
+    | some .decoding => "dec"
+    | some .notFound => "nf"
+  let j := match jbrdStatus a with | .notFound => "nf" | _ => "x"
+  s!"r/{exif}/{showAnsBytes (firstXml a)}/{j}"
+
+def showSErr : SErr → String
+  | .container .invalidBox => "E:invalid-box"
+  | .container .validationFailed => "E:validation"
+  | .container _ => "E:panic-container"
+  | .aux .brotli => "E:io"
+  | .aux .jbrd => "E:jbrd"
+  | .aux .panic => "E:panic"
+
+def dedupe (last w : String) : String := if w = last then "=" else w
+
+/-- chunk by chunk; `acc` in reverse -/
+def sessLoop (s : Sess) (file : Bytes) (last : String) (acc : List String) :
+    List Nat → List String
+  | [] =>
+    match s.finalize codec with
+    | .ok s' => (stateWord s'.a :: "fin:ok" :: acc).reverse
+    | .error e => (stateWord s.a :: s!"fin:{showSErr e}" :: acc).reverse
+  | n :: ns =>
+    match s.push codec (file.take n) with
+    | .error e => (showSErr e :: acc).reverse
+    | .ok s' =>
+      let w := stateWord s'.a
+      sessLoop s' (file.drop n) w (dedupe last w :: acc) ns
+
+def parseLens (l : String) (total : Nat) : Option (List Nat) :=
+  if l = "-" then some [total] else (l.splitOn ",").mapM String.toNat?
+
+def auxOp (ws : List String) : Option String :=
+  match ws with
+  | ["sess", h, l] =>
+    match unhex h with
+    | none => some "bad-op"
+    | some file =>
+      match parseLens l file.length with
+      | none => some "bad-op"
+      | some lens => some (" ".intercalate (sessLoop Sess.init file "" [] lens))
+  | ["read", h] =>
+    match unhex h with
+    | none => some "bad-op"
+    | some file =>
+      match Jxl.AuxBox.read codec file with
+      | .ok s => some s!"read:ok {stateWord s.a}"
+      | .error e => some s!"read:{showSErr e}"
+  | _ => none
+
+def stepAll (st : St) (ws : List String) : St × String :=
+  match auxOp ws with
+  | some o => (st, o)
+  | none => step st ws
+
+def main : IO Unit := runLoop (⟨init, false, []⟩ : St) stepAll
 
 end Jxl.Driver.C10
